@@ -111,6 +111,7 @@ impl Session {
         let (verb, head, payload) = split_request(line);
         match verb {
             "encode" => codec::cmd_encode(head, payload),
+            "encode.head" => codec::cmd_encode_head(head, payload),
             "decode" => codec::cmd_decode(head),
             "validate.out" => codec::cmd_validate_outbound(payload),
             "validate.outint" => codec::cmd_validate_outbound_internal(head, payload),
